@@ -46,7 +46,7 @@ struct EvalOpts
 {
     bool threeCosts = true;
     int ws = -1;      // -1: built-in workspace (nullptr argument); >= 0: environment workspace handle
-    int executor = 0; // 0 default argument (SerialExecutor), 1 explicit SerialExecutor, 2 permuting executor (perm), 3 threaded executor, 4 OpenMPExecutor
+    int executor = 0; // 0 default argument (SerialExecutor), 1 explicit SerialExecutor, 2 permuting executor (perm), 3 threaded executor (threads spawned per call), 4 OpenMPExecutor, 5 persistent worker pool created before the call
     std::vector<int> perm;
     int threads = 2;
     uint64_t partitionSeed = 0;
@@ -67,6 +67,7 @@ struct IOptimizer
     virtual int combo() const = 0;
     virtual bool setInitDur(const std::vector<double> &T, const MatrixXd &P, double t0, const BC &bc) = 0;
     virtual bool setInitPts(const std::vector<double> &tp, const MatrixXd &P, const BC &bc) = 0;
+    virtual bool reinitFromOwnSpline(int which) = 0; // setInitState(getOptimalSpline()->getters...): 0 durations overload, 1 time-points overload
     virtual void setFlags(const OptFlags &f) = 0;
     virtual void setRho(double rho) = 0;
     virtual void setSteps(int k) = 0;
@@ -84,6 +85,8 @@ struct IOptimizer
     virtual const void *optimalSplineAddr() const = 0;
     virtual std::unique_ptr<IOptimizer> clone() const = 0; // heap copy-construction
     virtual void assignFrom(const IOptimizer &o) = 0;
+    virtual std::unique_ptr<IOptimizer> cloneByMove() const = 0; // Opt(std::move(temporary copy)); the temporary is destroyed
+    virtual void assignFromMoved(const IOptimizer &o) = 0;       // *this = std::move(temporary copy of o); the temporary is destroyed
     virtual void selfAssign() = 0;
     virtual const void *addr() const = 0; // footprint of the wrapped optimizer object
     virtual size_t size() const = 0;
